@@ -27,14 +27,15 @@ import tempfile
 from concurrent.futures import ThreadPoolExecutor
 
 M256 = (1 << 256) - 1
+NPROBE = 3000      # fresh terms allocated per probe of z3's id free list
 
-OPS = dict(STOP=0x00, ADD=0x01, MUL=0x02, DIV=0x04, LT=0x10, GT=0x11, EQ=0x14, ISZERO=0x15, AND=0x16, SHR=0x1C,
-           CALLDATALOAD=0x35, CODECOPY=0x39, POP=0x50, MSTORE=0x52, JUMP=0x56, JUMPI=0x57, JUMPDEST=0x5B, PUSH0=0x5F,
-           DUP1=0x80, RETURN=0xF3, REVERT=0xFD)
+OPS = dict(STOP=0x00, ADD=0x01, MUL=0x02, DIV=0x04, LT=0x10, GT=0x11, EQ=0x14, ISZERO=0x15, AND=0x16, SHL=0x1B, SHR=0x1C,
+           CALLDATALOAD=0x35, CODECOPY=0x39, POP=0x50, MLOAD=0x51, MSTORE=0x52, SLOAD=0x54, SSTORE=0x55, JUMP=0x56, JUMPI=0x57,
+           GAS=0x5A, JUMPDEST=0x5B, PUSH0=0x5F, DUP1=0x80, CREATE=0xF0, RETURN=0xF3, STATICCALL=0xFA, REVERT=0xFD)
 
 
 def asm(items):
-    """two-pass assembler: ('label', n) -> JUMPDEST, ('ref', n) -> PUSH2 addr, ('push', nbytes, v), mnemonic"""
+    """two-pass assembler: ('label', n) -> JUMPDEST, ('ref', n) -> PUSH2 addr, ('push', nbytes, v), ('raw', bytes), mnemonic"""
     pos, labels = 0, {}
     for it in items:
         if isinstance(it, tuple) and it[0] == "label":
@@ -44,6 +45,8 @@ def asm(items):
             pos += 3
         elif isinstance(it, tuple) and it[0] == "push":
             pos += 1 + it[1]
+        elif isinstance(it, tuple) and it[0] == "raw":
+            pos += len(it[1])
         else:
             pos += 1
     out = b""
@@ -54,6 +57,8 @@ def asm(items):
             out += bytes([0x61]) + labels[it[1]].to_bytes(2, "big")
         elif isinstance(it, tuple) and it[0] == "push":
             out += bytes([0x5F + it[1]]) + it[2].to_bytes(it[1], "big")
+        elif isinstance(it, tuple) and it[0] == "raw":
+            out += it[1]
         else:
             out += bytes([OPS[it]])
     return out
@@ -208,6 +213,117 @@ def make_project(root, trees):
     return bindir
 
 
+def subst_vars(items, V):
+    """the loaders of x, y, w (calldata words) replaced by other item sequences"""
+    out = []
+    i = 0
+    offs = {4: 0, 36: 1, 68: 2}
+    while i < len(items):
+        it = items[i]
+        if isinstance(it, tuple) and it[0] == "push" and it[1] == 1 and it[2] in offs and i + 1 < len(items) and items[i + 1] == "CALLDATALOAD":
+            out.extend(V[offs[it[2]]])
+            i += 2
+        else:
+            out.append(it)
+            i += 1
+    return out
+
+
+def _artifact(name, funcs, cr, rt, path):
+    from eth_hash.auto import keccak
+
+    return {
+        "abi": [{"type": "function", "name": n, "inputs": [{"name": f"a{i}", "type": t, "internalType": t} for i, t in enumerate(ins)],
+                 "outputs": [], "stateMutability": "nonpayable"} for n, ins in funcs],
+        "bytecode": {"object": "0x" + cr.hex(), "sourceMap": "", "linkReferences": {}},
+        "deployedBytecode": {"object": "0x" + rt.hex(), "sourceMap": "", "linkReferences": {}},
+        "methodIdentifiers": {f"{n}({','.join(ins)})": keccak(f"{n}({','.join(ins)})".encode())[:4].hex() for n, ins in funcs},
+        "metadata": {"compiler": {"version": "0.8.26"}, "output": {"devdoc": {"methods": {}}}},
+        "ast": {"absolutePath": path, "id": 1, "nodeType": "SourceUnit", "nodes": [{"nodeType": "ContractDefinition", "name": name, "contractKind": "contract", "abstract": False, "nodes": [], "id": 2}]},
+        "id": 0,
+    }
+
+
+def make_invariant_project(root, trees):
+    """One FunctionContext fed by several independent runs (the case in which nothing but halmos' own
+    bookkeeping keeps the conditions of a finished run -- and with them their z3 ids -- alive):
+
+        contract C { uint flag, s1, s2, s3;
+                     function set_k(uint a, uint b, uint c) { s1 = a; s2 = b; s3 = c; flag = k + 1; }    // one per tree
+                     function get() returns (flag, s1, s2, s3) }
+        contract T { C c;  function setUp() { c = new C(); }
+                     function invariant_ok() { (flag, s1, s2, s3) = c.get(); if (flag == k + 1) tree_k(s1, s2, s3); } }
+
+    With --invariant-depth 1 the invariant is run on the state after setUp and on the state after every set_k:
+    run k explores tree k over the symbolic arguments of that call; all runs share the function's unsat cores."""
+    from eth_hash.auto import keccak
+
+    def sel(sig):
+        return int.from_bytes(keccak(sig.encode())[:4], "big")
+
+    def creation(rt):
+        n = len(rt)
+        cr = asm([("push", 2, n), ("push", 2, 13), "PUSH0", "CODECOPY", ("push", 2, n), "PUSH0", "RETURN"])
+        assert len(cr) == 13
+        return cr + rt
+
+    def disp(funcs):
+        items = ["PUSH0", "CALLDATALOAD", ("push", 1, 0xE0), "SHR"]
+        for sig, lab in funcs:
+            items += ["DUP1", ("push", 4, sel(sig)), "EQ", ("ref", lab), "JUMPI"]
+        return items + ["PUSH0", "PUSH0", "REVERT"]
+
+    n = len(trees)
+    sets = [f"set_{k}(uint256,uint256,uint256)" for k in range(n)]
+    c = disp([(s, f"S{k}") for k, s in enumerate(sets)] + [("get()", "GET")])
+    for k in range(n):
+        c += [("label", f"S{k}"), "POP"] + X + [("push", 1, 1), "SSTORE"] + Y + [("push", 1, 2), "SSTORE"] + W + [("push", 1, 3), "SSTORE", ("push", 1, k + 1), "PUSH0", "SSTORE", "STOP"]
+    c += [("label", "GET"), "POP"]
+    for slot in range(4):
+        c += [("push", 1, slot), "SLOAD", ("push", 1, 0x20 * slot), "MSTORE"]
+    c += [("push", 1, 0x80), "PUSH0", "RETURN"]
+    c_rt = asm(c)
+    c_cr = creation(c_rt)
+
+    flag = [("push", 1, 0x20), "MLOAD"]
+    V = ([("push", 1, 0x40), "MLOAD"], [("push", 1, 0x60), "MLOAD"], [("push", 1, 0x80), "MLOAD"])
+    inv = [("label", "I"), "POP", ("push", 4, sel("get()")), ("push", 1, 0xE0), "SHL", "PUSH0", "MSTORE",
+           ("push", 1, 0x80), ("push", 1, 0x20), ("push", 1, 4), "PUSH0", "PUSH0", "SLOAD", "GAS", "STATICCALL", "POP"]
+    for k in range(n):
+        inv += flag + [("push", 1, k + 1), "EQ", ("ref", f"T{k}"), "JUMPI"]
+    inv += ["STOP"]
+    for k, t in enumerate(trees):
+        body, _ = tree_code(t, f"t{k}")
+        inv += [("label", f"T{k}")] + subst_vars(body, V)
+
+    def t_items(tail_off):
+        return (disp([("setUp()", "S"), ("invariant_ok()", "I")])
+                + [("label", "S"), "POP", ("push", 2, len(c_cr)), ("push", 2, tail_off), "PUSH0", "CODECOPY",
+                   ("push", 2, len(c_cr)), "PUSH0", "PUSH0", "CREATE", "PUSH0", "SSTORE", "STOP"]
+                + inv + [("raw", c_cr)])
+
+    off = len(asm(t_items(0))) - len(c_cr)
+    t_rt = asm(t_items(off))
+    assert t_rt[off:] == c_cr
+    os.makedirs(os.path.join(root, "out", "T.sol"), exist_ok=True)
+    os.makedirs(os.path.join(root, "out", "C.sol"), exist_ok=True)
+    with open(os.path.join(root, "out", "T.sol", "T.json"), "w") as f:
+        json.dump(_artifact("T", [("setUp", []), ("invariant_ok", [])], creation(t_rt), t_rt, "test/T.sol"), f)
+    with open(os.path.join(root, "out", "C.sol", "C.json"), "w") as f:
+        json.dump(_artifact("C", [(f"set_{k}", ["uint256"] * 3) for k in range(n)] + [("get", [])], c_cr, c_rt, "src/C.sol"), f)
+    with open(os.path.join(root, "foundry.toml"), "w") as f:
+        f.write("[profile.default]\n")
+    with open(os.path.join(root, "INVARIANT"), "w") as f:
+        f.write("1\n")
+    bindir = os.path.join(root, "bin")
+    os.makedirs(bindir, exist_ok=True)
+    fg = os.path.join(bindir, "forge")
+    with open(fg, "w") as f:
+        f.write("#!/bin/sh\nexit 0\n")
+    os.chmod(fg, 0o755)
+    return bindir
+
+
 # ----------------------------------------------------------------- child: halmos with monitors
 
 def child(project, cache, outfile, sync=False):
@@ -220,7 +336,8 @@ def child(project, cache, outfile, sync=False):
     import halmos.solve as solve
 
     state = {"fn": "setup", "ids": {}, "clashes": [], "hits": {}, "queries": {}, "results": [],
-             "in_test": False, "in_assert": False, "consumers": [], "low": [], "cb_done": 0}
+             "in_test": False, "in_assert": False, "consumers": [], "low": [], "cb_done": 0,
+             "assert_ids": {}, "probe_n": 0, "freed_reported": set(), "live_cores": lambda: []}
     lock = threading.Lock()
 
     # ---- the consumers of the solver, in the order run_test creates them (main thread)
@@ -291,10 +408,35 @@ def child(project, cache, outfile, sync=False):
     hm.CounterexampleHandler.handle_assertion_violation = handle_assertion_violation
     orig_to_smt2 = sevm.Path.to_smt2
 
+    def probe_freed():
+        """H2 at its root: z3 hands a released AST id out again (free list).  After a forced collection a batch of
+        fresh terms is allocated: if one of them receives the id of a condition that was serialised for an assertion
+        query of the function context still running (an id the cache may hold or be asked about), that condition has
+        been released and its id now denotes something else."""
+        import z3
+
+        watched = state["assert_ids"].get(state["fn"])
+        if not watched or not cache:     # without --cache-solver nobody ever compares ids
+            return
+        state["probe_n"] += 1
+        ps = [z3.Int(f"c16_probe_{state['probe_n']}_{i}") for i in range(NPROBE)]
+        got = {str(t.get_id()) for t in ps}
+        del ps
+        for i in sorted(got & watched.keys()):
+            if (state["fn"], i) not in state["freed_reported"]:
+                state["freed_reported"].add((state["fn"], i))
+                cores = [c for c in state["live_cores"]() if i in c]
+                state["clashes"].append({"kind": "id-released-and-recycled", "fn": state["fn"], "id": i, "was": watched[i][:300], "in_stored_core": bool(cores)})
+
     def to_smt2(self, args):
         gc.collect()          # halmos disables the cyclic gc; force it so that freed terms really go
+        probe_freed()
         q = orig_to_smt2(self, args)
         seen = state["ids"].setdefault(state["fn"], {})
+        if state["in_assert"]:
+            wa = state["assert_ids"].setdefault(state["fn"], {})
+            for t in self.conditions:
+                wa.setdefault(str(t.get_id()), t.sexpr())
         conds = list(self.conditions)
         if [str(t.get_id()) for t in conds] != list(q.assertions):
             state["clashes"].append({"kind": "ids-differ-from-conditions", "fn": state["fn"]})
@@ -322,11 +464,13 @@ def child(project, cache, outfile, sync=False):
     def run_test(ctx):
         state["fn"] = ctx.info.name
         state.update(in_test=True, consumers=[], low=[], cb_done=0)
+        state["live_cores"] = lambda: [[str(i) for i in c] for c in ctx.solving_ctx.unsat_cores]
         try:
             res = orig_run_test(ctx)
         finally:
             state["in_test"] = False
         gc.collect()
+        # no probe here: what is released once the function context has done its last look-up cannot be asked about again
 
         def models(ms):
             out = []
@@ -356,6 +500,8 @@ def child(project, cache, outfile, sync=False):
     argv = ["--root", project, "--no-status", "--solver-timeout-assertion", "60000", "--solver-threads", "1"]
     if cache:
         argv.append("--cache-solver")
+    if os.path.exists(os.path.join(project, "INVARIANT")):
+        argv += ["--invariant-depth", "1"]
     rc = None
     try:
         r = hm._main(argv)
@@ -408,6 +554,20 @@ def gen_gadget_tree(r, depth):
         c = list(r.choice([("xlt", 9), ("ylt", 2), ("mask", 6, 2), ("ygt", 0)]))
         sub = [c, sub, other] if r.random() < 0.5 else [c, other, sub]
     return sub
+
+
+def without_stuck(tree, r):
+    if tree in LEAVES:
+        return r.choice(["P", "P", "S"]) if tree == "J" else tree
+    return [tree[0], without_stuck(tree[1], r), without_stuck(tree[2], r)]
+
+
+def invariant_corpus():
+    """runs of an invariant: refined-only contradictions whose cores are stored, without and with stuck paths"""
+    return [[["mulcomm"], "S", [["wlt", 9], "P", [["weq", 9], "P", "S"]]],
+            [["ylt", 1], [["diveq", 5], [["wmask", 3, 1], "P", "P"], "S"], "S"],
+            [["mulcomm"], "S", [["xlt", 9], "J", "P"]],
+            [["divle"], "P", [["wlt", 5], "P", "P"]]]
 
 
 def gen_project_trees(r, tier):
@@ -514,18 +674,28 @@ def decode_model_test(v):
 
 
 def run_e2e(rep, tier, r, fail, m=None):
-    # quick: the corpus and two random projects in sync mode, a random project with the solver racing the engine
-    nproj = 4 if tier == "quick" else 12
+    # quick: the corpus and a random project in sync mode, a random project with the solver racing the engine
+    # + invariant projects (sync): one function context fed by several independent runs, the id free-list probe on
+    nproj = 3 if tier == "quick" else 12
+    ninv = 1 if tier == "quick" else 4
     projects = []
     tmp = tempfile.mkdtemp(prefix="c16_e2e_")
-    for k in range(nproj):
+    for k in range(nproj + ninv):
+        root = os.path.join(tmp, f"p{k}")
+        if k >= nproj:
+            # a stuck path is kept in run_test's `stuck` list (Exec, path, conditions) until the verdict: runs without
+            # stuck leaves are the ones whose conditions nothing but halmos' memo tables keeps alive
+            trees = (invariant_corpus() if k == nproj else []) + [without_stuck(gen_gadget_tree(r, r.choice([2, 3])), r) if j % 2 == 0 else gen_gadget_tree(r, r.choice([2, 3]))
+                                                                   for j in range(2 if tier == "quick" else 4)]
+            bindir = make_invariant_project(root, trees)
+            projects.append((root, bindir, trees, True))
+            continue
         if k == 0:
             trees = corpus_trees()
         else:
             trees = gen_project_trees(r, tier)
-        root = os.path.join(tmp, f"p{k}")
         bindir = make_project(root, trees)
-        projects.append((root, bindir, trees, k % 4 != 3))
+        projects.append((root, bindir, trees, k % 3 != 2))
     jobs = [(b, p, c, sy) for p, b, _, sy in projects for c in (True, False)]
     with ThreadPoolExecutor(min(12, len(jobs))) as ex:
         outs = list(ex.map(lambda j: run_child(j[0], j[1], j[2], 280 if tier == "quick" else 900, j[3]), jobs))
@@ -538,7 +708,8 @@ def run_e2e(rep, tier, r, fail, m=None):
         tot_hits += hits
         tot_q += sum((on.get("queries") or {}).values())
         tot_ids += sum((on.get("ids") or {}).values())
-        rep.count("case_kind", "e2e:" + ("sync" if sync else "racing"))
+        invariant = k >= nproj
+        rep.count("case_kind", "e2e:" + ("invariant" if invariant else "sync" if sync else "racing"))
         rep.count("e2e_hits", min(hits, 5))
         rep.case({"kind": "e2e", "trees": trees, "sync": sync}, nontrivial=hits > 0)
         case = {"kind": "e2e", "trees": trees, "sync": sync}
@@ -552,16 +723,18 @@ def run_e2e(rep, tier, r, fail, m=None):
             fail("failing-input", "cache hits although --cache-solver is off", case, sig={"observable": "cache-when-off"})
         ra = {x["name"]: x for x in on["results"]}
         rb = {x["name"]: x for x in off["results"]}
-        if set(ra) != set(rb) or len(ra) != len(trees):
+        if set(ra) != set(rb) or len(ra) != (1 if invariant else len(trees)):
             fail("broken-tie", f"project {k}: tests run {sorted(ra)} vs {sorted(rb)}", case)
             continue
         for name in sorted(ra):
-            t = trees[int(name.split("_")[1])]
+            t = trees if invariant else trees[int(name.split("_")[1])]
             a, b_ = ra[name], rb[name]
             tcase = dict(case, test=name, tree=t)
 
             def leaves(res, name=name, t=t):
                 out = set()
+                if invariant:      # the model of an invariant counterexample names the arguments of the call sequence
+                    return {("n", "P")} if res["valid"] + res["invalid"] else set()
                 for mdl in res["valid"] + res["invalid"]:
                     out.add(leaf_of(t, mdl.get("x", 0), mdl.get("y", 0), mdl.get("w", 0)))
                 return out
